@@ -181,6 +181,13 @@ static void run_actor(int idx)
           t->kill();
       } else if (n == "killall")
         sg4::Actor::kill_all();
+      else if (n == "suspend") {
+        if (auto t = actor_of(op.a[0] - 1); t != nullptr)
+          t->suspend();
+      } else if (n == "resume") {
+        if (auto t = actor_of(op.a[0] - 1); t != nullptr)
+          t->resume();
+      }
       else if (n == "join") {
         auto t = actor_of(op.a[0] - 1);
         if (t == nullptr)
